@@ -124,6 +124,26 @@ def replay(c, out, fmt, combos, newtons):
                              [float(v) for v in x - xn_ref], dy_ref))
         except Exception as e:  # noqa
             errs.append(("raise.reused_solver:" + type(e).__name__, ss.name, "LU", "-"))
+    # the step is a function of the penalty it is asked for: the solver keeps its Iterate objects across a penalty update, so
+    # a step with another penalty computed first on the SAME iterates must not change the step for rho (seed C14-i)
+    for ss in (StepSolverType.Standard, StepSolverType.Extended, StepSolverType.Symmetric, StepSolverType.Asymmetric):
+        params = Params(step_solver_type=ss, linear_solver_type=LinearSolverType.LU, newton_type=NewtonType.Full)
+        it = Iterate(prob, params, x, y)
+        orig = it if start else Iterate(prob, params, np.array(c["xhat"], dtype=float), np.array([float(c["yhat"])]))
+        for other in (rho + 3.0, 0.0):
+            try:
+                newton_method(prob, params, orig, dt, other).step(it)
+            except Exception:  # noqa: the system for the other penalty may be singular; only its side effects matter here
+                pass
+        try:
+            step = newton_method(prob, params, orig, dt, rho).step(it)
+            tol = TOL[LinearSolverType.LU] * amp * scale
+            xn = x - step.dx
+            if not (np.abs(xn - xn_ref).max() <= tol and abs(float(step.dy[0]) - dy_ref) <= tol):
+                errs.append(("step.penalty_changed", ss.name, "LU", "Full", [float(v) for v in step.dx], float(step.dy[0]),
+                             [float(v) for v in x - xn_ref], dy_ref))
+        except Exception as e:  # noqa
+            errs.append(("raise.penalty_changed:" + type(e).__name__, ss.name, "LU", "Full"))
     return errs
 
 
